@@ -9,7 +9,7 @@ ops
            orchestration of journal_table re-stated in run(); supplementary volume, microseconds per case)
   indices  ordered_generate_journalling_indices alone on arbitrary (also unsorted / duplicated) arrays
 """
-import itertools
+import itertools, json, hashlib
 
 PROP, NUM = 'C17', 17
 PROPS_FILES = ['Props/C17.v']
@@ -50,6 +50,7 @@ _np = _ops = _session = _journal = None
 _sess = None
 _ds = None
 _count = 0
+_cache = {}
 
 
 class _Schema:
@@ -105,16 +106,20 @@ def _run_table(case):
                 pass
         _sess = s_mod.Session()
         _ds = _sess.open_dataset(BytesIO(), 'w', 'd')
+        _cache.clear()
     _count += 1
     s, ds = _sess, _ds
     tag = str(_count)
-    o = ds.create_dataframe('o' + tag)
-    n = ds.create_dataframe('n' + tag)
-    r = ds.create_dataframe('r' + tag)
     kd = case['kd']
     names = ['f%d' % i for i in range(len(case['fields']))]
 
-    def mk(df, keys, vf, which):
+    def mk(prefix, keys, vf, which):
+        # input tables are only read by journal_table: identical ones are shared between consecutive cases
+        key = json.dumps([prefix, kd, keys, vf, [[f['k'], f[which]] for f in case['fields']]])
+        df = _cache.get(key)
+        if df is not None:
+            return df
+        df = ds.create_dataframe(prefix + tag)
         if kd == 'S1':
             s.create_fixed_string(df, 'id', 1).data.write(np.array([bytes([97 + k]) for k in keys], dtype='S1'))
         else:
@@ -126,9 +131,14 @@ def _run_table(case):
                 s.create_numeric(df, nm, 'int64').data.write(np.array(f[which], dtype=np.int64))
             else:
                 s.create_indexed_string(df, nm).data.write([_str(x) for x in f[which]])
+        if len(_cache) > 6:
+            _cache.pop(next(iter(_cache)))
+        _cache[key] = df
+        return df
 
-    mk(o, case['okeys'], case['ovf'], 'o')
-    mk(n, case['nkeys'], [100.0] * len(case['nkeys']), 'n')
+    o = mk('o', case['okeys'], case['ovf'], 'o')
+    n = mk('n', case['nkeys'], [100.0] * len(case['nkeys']), 'n')
+    r = ds.create_dataframe('r' + tag)
     journal.journal_table(s, _Schema(['id'] + names + ['j_valid_from', 'j_valid_to']), o, n, 'id', r)
     got = sorted(r.keys())
     if got != sorted(names):
@@ -315,11 +325,18 @@ def known(case, impl, model, spec, mode):
 
 
 def skip(case, mode):
-    # HDF5-backed cases are run in the compiled (production) mode only in the quick tier
-    return case['op'] == 'table' and mode != 'jit' and not case.get('allmodes')
+    # HDF5-backed cases cost ~30 ms each (field creation): each one is run in ONE of the modes jit / nojit (chosen by a
+    # hash of the case, so both modes see every shape class), cases tagged allmodes in every mode.  The numba kernels
+    # themselves are run in every mode on every pipe / indices case.
+    if case['op'] != 'table' or case.get('allmodes'):
+        return False
+    h = int(hashlib.sha256(json.dumps(case, sort_keys=True).encode()).hexdigest()[:8], 16)
+    if mode == 'bounds':
+        return h % 4 != 0
+    return (h % 2 == 0) != (mode == 'jit')
 
 
-# ------------------------------------------------------------------------------------------ generators
+# ---- generators
 def _payload(okeys, ovf, nkeys, kinds, pattern):
     """Build payload columns. Old numeric cell of physical row i = 10+i (row identity); old string cell of row i =
     i%3 letters.  pattern: dict key -> one of 'same','num','str','both' for keys present in both tables."""
@@ -418,15 +435,15 @@ def gen(tier, rng):
         for okeys in itertools.product(range(3), repeat=no):
             for ovf in itertools.product((1, 2), repeat=no):
                 okeys_, ovf_ = list(okeys), list(ovf)
+                c += 1      # key dtype and column layout rotate per OLD table (so that the old table is shared)
+                kinds = [['n', 's'], ['s', 'n'], ['n'], ['s']][c % 4] if c % 3 else ['n', 's']
                 for nkeys in news:
                     matched = [k for k in nkeys if k in okeys_]
-                    kinds = [['n', 's'], ['s', 'n'], ['n'], ['s']][c % 4] if c % 3 else ['n', 's']
                     for p in _patterns(matched, kinds, rng, False):
-                        c += 1
                         yield {'op': 'table', 'kd': kds[c % 3], 'okeys': okeys_, 'ovf': ovf_, 'nkeys': nkeys,
                                'fields': _payload(okeys_, ovf_, nkeys, kinds, p)}
     # table: seeded larger tables
-    for t in range(6000 if big else 1200):
+    for t in range(6000 if big else 800):
         no = rng.randint(nmax + 1, 7 if big else 6)
         nk = rng.randint(2, 4)
         okeys = [rng.randint(0, nk - 1) * 2 for _ in range(no)]
